@@ -272,6 +272,58 @@ pub fn install_panic_hook() {
 }
 
 /// Runs `f`, turning a panic into `Err(message at file:line)`
+/// Wall-clock watchdog. The iteration budgets catch loops that carry a hook; recursion without one, or a
+/// loop inside a dependency, would otherwise hang the checker. Every sweep worker registers the item it is
+/// executing; a watchdog thread ends the process with a VIOLATION line when one item exceeds
+/// `ITEM_WALL_LIMIT_S` (hundreds of times the slowest legitimate item; override: VERIF_ITEM_WALL_S).
+pub const ITEM_WALL_LIMIT_S: u64 = 300;
+const SLOTS: usize = 256;
+static SLOT_START: [std::sync::atomic::AtomicU64; SLOTS] = [const { std::sync::atomic::AtomicU64::new(0) }; SLOTS];
+static SLOT_ITEM: [std::sync::atomic::AtomicU64; SLOTS] = [const { std::sync::atomic::AtomicU64::new(0) }; SLOTS];
+static NEXT_SLOT: AtomicUsize = AtomicUsize::new(0);
+static PROPERTY: Mutex<(String, String)> = Mutex::new((String::new(), String::new()));
+
+thread_local! {
+    static MY_SLOT: usize = NEXT_SLOT.fetch_add(1, Ordering::SeqCst) % SLOTS;
+}
+
+fn now_ms() -> u64 {
+    use std::time::{SystemTime, UNIX_EPOCH};
+    SystemTime::now().duration_since(UNIX_EPOCH).map(|d| d.as_millis() as u64).unwrap_or(1).max(1)
+}
+
+fn item_begin(i: usize) {
+    MY_SLOT.with(|s| {
+        SLOT_ITEM[*s].store(i as u64, Ordering::SeqCst);
+        SLOT_START[*s].store(now_ms(), Ordering::SeqCst);
+    });
+}
+
+fn item_end() {
+    MY_SLOT.with(|s| SLOT_START[*s].store(0, Ordering::SeqCst));
+}
+
+pub fn start_watchdog() {
+    let limit = std::env::var("VERIF_ITEM_WALL_S").ok().and_then(|s| s.parse::<u64>().ok()).unwrap_or(ITEM_WALL_LIMIT_S);
+    std::thread::spawn(move || loop {
+        std::thread::sleep(std::time::Duration::from_millis(500));
+        let now = now_ms();
+        for k in 0..SLOTS {
+            let st = SLOT_START[k].load(Ordering::SeqCst);
+            if st != 0 && now.saturating_sub(st) > limit * 1000 {
+                let item = SLOT_ITEM[k].load(Ordering::SeqCst);
+                let (id, tier) = PROPERTY.lock().map(|p| p.clone()).unwrap_or_default();
+                let path = format!("{}/replays/{}-{}-hang.json", VERIF_DIR, id, tier);
+                let body = json!({"property": id, "tier": tier, "clause": "library call terminates (no item exceeds the wall-clock allowance)", "class_key": "", "case": {"unanticipated_panic": format!("sweep item {} still running after {} s", item, limit), "sweep_item": item}, "detail": "the checker ended itself; nothing else of this run is reported"});
+                let _ = std::fs::create_dir_all(format!("{}/replays", VERIF_DIR));
+                let _ = std::fs::write(&path, serde_json::to_string_pretty(&body).unwrap_or_default());
+                println!("VIOLATION property={} replay={} clause=\"library call terminates (no item exceeds the wall-clock allowance)\" class=\"\" cases=1 :: sweep item {} still running after {} s", id, path, item, limit);
+                std::process::exit(1);
+            }
+        }
+    });
+}
+
 /// Iteration budget (ticks of the library's loop hooks) granted to one swept item unless the property
 /// installs its own: far above anything the explored inputs need, so that only a loop that no longer
 /// terminates reaches it
@@ -360,8 +412,12 @@ where
         let mut a = Local::new();
         let mut b = Local::new();
         let mut sink = Vec::new();
+        reset_budget();
+        item_begin(i);
         let _ = guarded(|| f(i, &mut a, &mut sink));
+        reset_budget();
         let _ = guarded(|| f(i, &mut b, &mut sink));
+        item_end();
         if a.digest() != b.digest() {
             merged
                 .machinery
@@ -392,9 +448,11 @@ where
                         break;
                     }
                     reset_budget();
+                    item_begin(i);
                     if let Err(msg) = guarded(|| f(i, &mut l, &mut out)) {
                         file_escaped_panic(&mut l, i, msg);
                     }
+                    item_end();
                     l.max_item_ticks = l.max_item_ticks.max(engeom::verif::ticks());
                 }
                 results.lock().unwrap()[c] = Some((l, out));
@@ -422,9 +480,11 @@ pub fn isolated_worker(start: usize, end: usize, mut f: impl FnMut(usize, &mut L
             let _ = o.flush();
         }
         reset_budget();
+        item_begin(i);
         if let Err(msg) = guarded(|| f(i, &mut l)) {
             file_escaped_panic(&mut l, i, msg);
         }
+        item_end();
         l.max_item_ticks = l.max_item_ticks.max(engeom::verif::ticks());
     }
     let mut o = out.lock();
@@ -673,6 +733,9 @@ impl Ctx {
             .ok()
             .and_then(|s| s.parse::<i64>().ok())
             .unwrap_or(0) as u64;
+        if let Ok(mut p) = PROPERTY.lock() {
+            *p = (id.to_string(), tier.name().to_string());
+        }
         Ctx {
             id,
             tier,
